@@ -554,11 +554,18 @@ class PteraTransformer(NodeTransformer):
                 orig=target,
             )
 
-        elif isinstance(target, ast.Tuple):
+        elif isinstance(target, (ast.Tuple, ast.List)):
             stmts = []
             for entry in target.elts:
                 stmts.extend(self.generate_interactions(entry))
             return stmts
+
+        elif isinstance(target, ast.Starred):
+            return self.generate_interactions(target.value)
+
+        elif isinstance(target, (ast.Attribute, ast.Subscript)):
+            # Stores into an object: no variable is bound
+            return []
 
         else:  # pragma: no cover
             raise NotImplementedError(target)
@@ -719,8 +726,10 @@ class PteraTransformer(NodeTransformer):
         """
 
         def _only_names(target):
-            if isinstance(target, ast.Tuple):
+            if isinstance(target, (ast.Tuple, ast.List)):
                 return all(_only_names(elt) for elt in target.elts)
+            if isinstance(target, ast.Starred):
+                return _only_names(target.value)
             return isinstance(target, ast.Name)
 
         new_body = []
